@@ -66,15 +66,31 @@ def check_cluster_masks(P, R, rule="IDX.mask-eq"):
         f = P.func(key)
         du = get_defuse(f, P)
         n_here = n
-        for sub_ in [x for x in walk_no_nested(f.node) if isinstance(x, ast.Subscript) and isinstance(x.slice, ast.Compare)]:
-            c = cone(du, sub_.slice.left, du.stmt_of(sub_), interproc=False)
-            if not c.calls_any("argmin") and not any(x.endswith("get_closest_centroid_index") for x in c.calls):
+        from ..engines import group as _grp
+
+        def is_label(cn):
+            return cn.calls_any("argmin") or any(x.endswith("get_closest_centroid_index") for x in cn.calls)
+        for sub_ in [x for x in walk_no_nested(f.node) if isinstance(x, ast.Subscript) and not isinstance(x.ctx, ast.Store)]:
+            first = sub_.slice.elts[0] if isinstance(sub_.slice, ast.Tuple) and sub_.slice.elts else sub_.slice
+            if isinstance(first, (ast.Slice, ast.Constant)):
+                continue
+            bc = cone(du, sub_.value, du.stmt_of(sub_), interproc=False)
+            if f.value_params[0] not in bc.params or is_label(bc):
+                continue  # not a selection out of the data
+            kind, ok, why = _grp.selection(du, first, du.stmt_of(sub_), is_label)
+            if kind is None:
                 continue
             n += 1
-            cmp_ = sub_.slice
-            idx = cmp_.comparators[0]
-            loopvar = isinstance(idx, ast.Name) and any(isinstance(p_, ast.For) and isinstance(p_.target, ast.Name) and p_.target.id == idx.id for p_ in _parents(sub_))
-            R.check(isinstance(cmp_.ops[0], ast.Eq) and loopvar, rule, key, src(sub_)[:60], "samples assigned to the cluster being accumulated", f"cluster statistics are accumulated over `{src(cmp_)}`, not over the samples whose nearest centroid *is* the cluster", sub_.lineno)
+            if kind == "mask-eq":
+                cmp_ = first
+                idx = cmp_.comparators[0] if is_label(cone(du, cmp_.left, du.stmt_of(sub_), interproc=False)) else cmp_.left
+                loopvar = isinstance(idx, ast.Name) and any((isinstance(p_, ast.For) and isinstance(p_.target, ast.Name) and p_.target.id == idx.id) or (isinstance(p_, (ast.ListComp, ast.GeneratorExp, ast.DictComp)) and any(isinstance(g_.target, ast.Name) and g_.target.id == idx.id for g_ in p_.generators)) for p_ in _parents(sub_))
+                R.check(ok and loopvar, rule, key, src(sub_)[:60], "samples assigned to the cluster being accumulated", f"cluster statistics are accumulated over `{src(cmp_)}`, not over the samples whose nearest centroid *is* the cluster", sub_.lineno)
+            else:
+                R.check(ok, rule, key, src(sub_)[:60], why, f"cluster statistics are not accumulated over the samples whose nearest centroid *is* the cluster: {why}", sub_.lineno)
+        for node_, kind_, ok_, why_ in _grp.scatter_sites(f, du, is_label, f.value_params[0]):
+            n += 1
+            R.check(ok_, rule, key, src(node_)[:60], why_, f"cluster statistics are not accumulated over the samples whose nearest centroid *is* the cluster: {why_}", node_.lineno)
         R.floor(f"{rule} ({key})", n - n_here, 1)  # at least one per function: selecting the cluster's samples once or per statistic are both fine
 
 
@@ -118,3 +134,4 @@ def run(P, R, tier):
 
 
 EXPLANATION += ' Also: (ACC.sum) the per-block statistics are added (+=) from zero in the M-step; (DTYPE.raw); (COVER.pairs); (DIM.ABS) no dimensioned quantity is tested against an absolute constant.'
+EXPLANATION += ' (IDX.mask-eq, generalised by GROUP) the rows summed into a cluster are selected by equality with the cluster id, by a sort-and-split grouping of the assignment (G1-G5), by a scatter-add at the assignment, or by segment sums over the runs of the sorted assignment; (COVER.tree) tree-shaped sums of the block statistics.'
